@@ -23,6 +23,8 @@
 //!   fqe   lens src     -> hex(real fqzcomp stream); model: Fqz.fqz_encode; verdict: self round trip
 //!   fqd   stream expect -> hex(decode stream) | Err | Panic; model: Fqz.fqz_decode (streams without the features
 //!                         the encoder never uses)
+//!   nme   src          -> hex(real name tokenizer stream); model: Names.names_encode; verdict: self round trip
+//!   nmd   stream expect -> hex(decode stream) | Err | Panic; model: Names.names_decode
 //! Implementation-only oracles (obs "-"):
 //!   nx16 flags src | aac flags src | fqz lens src | names src | gz level src | bz2 level src | xz level src
 //!   big codec param shape len seed     (input built inside `run`; > 1 MiB inputs and the witnesses of
@@ -674,8 +676,67 @@ fn fqd_case(c: &Case) -> Obs {
     }
 }
 
+/// known finding class `names-plus-sign-number-in-126th-token`: a name with at least 126 tokens
+/// (maximal runs of ASCII-alphanumeric / other bytes) whose 126th token -- the unsplit remainder --
+/// is '+' followed only by digits: the encoder's lexical_core::parse::<u32> accepts the sign, so
+/// the token is stored as a number and the '+' (and leading zeros) are lost.
+fn names_plus_class(src: &[u8]) -> bool {
+    let body = src.strip_suffix(&[0]).unwrap_or(src);
+    body.split(|&b| b == 0).any(|name| {
+        let mut pos = 0usize;
+        let mut count = 0usize;
+        while pos < name.len() {
+            count += 1;
+            if count == 126 {
+                let rest = &name[pos..];
+                return rest.len() >= 2 && rest[0] == b'+' && rest[1..].iter().all(u8::is_ascii_digit);
+            }
+            let alnum = name[pos].is_ascii_alphanumeric();
+            while pos < name.len() && name[pos].is_ascii_alphanumeric() == alnum {
+                pos += 1;
+            }
+        }
+        false
+    })
+}
+
+fn names_roundtrip(src: &[u8], want_obs: bool) -> Obs {
+    let mut o = roundtrip("names", src, || v::name_tokenizer_encode(src), |e| v::name_tokenizer_decode(e), want_obs);
+    if o.verdict.starts_with("fail names-decode-mismatch") && names_plus_class(src) {
+        o.verdict = o.verdict.replacen("names-decode-mismatch", "names-plus-sign-number-in-126th-token", 1);
+    }
+    o
+}
+
+fn nme_case(src: &[u8]) -> Obs {
+    names_roundtrip(src, true)
+}
+
+fn nmd_case(c: &Case) -> Obs {
+    let stream = c.b(0);
+    let expect = if c.args[1] == "-" { None } else { Some(c.b(1)) };
+    match guarded(AssertUnwindSafe(|| v::name_tokenizer_decode(&stream))) {
+        Outcome::Done(Ok(d)) => {
+            let obs = long_obs(&d);
+            match expect {
+                Some(e) if e != d => Obs::fail(obs, "names-decode-mismatch", format!("len={}", e.len())),
+                Some(e) => Obs::ok(obs, !e.is_empty()),
+                None => Obs::ok(obs, false),
+            }
+        }
+        Outcome::Done(Err(e)) => match expect {
+            Some(x) => Obs::fail("Err", "names-decode-error", format!("Err:{} len={}", errkind(&e), x.len())),
+            None => Obs::ok("Err", false),
+        },
+        Outcome::Panicked(m) => match expect {
+            Some(x) => Obs::fail("Panic", "names-decode-panic", format!("{m} len={}", x.len())),
+            None => Obs::ok("Panic", false),
+        },
+    }
+}
+
 fn names_case(src: &[u8]) -> Obs {
-    roundtrip("names", src, || v::name_tokenizer_encode(src), |e| v::name_tokenizer_decode(e), false)
+    names_roundtrip(src, false)
 }
 
 fn ext_case(kind: &str, level: u32, src: &[u8]) -> Obs {
@@ -1470,6 +1531,47 @@ fn generate(rng: &mut Rng, tier: &str, w: &mut CaseWriter) {
     w.push("names", vec![hex(b"0\0")]);
     w.push("names", vec![hex(b"007\0008\0")]);
     w.push("names", vec![hex(b"x1\0x1\0x1\0")]);
+    // ---- name tokenizer (modelled): nme / nmd -- the decoder also on truncations and on streams
+    // with bytes appended or the use_arith byte set (never a corrupted size or count: they drive
+    // the allocation of the decoder and the unary fuel of the model)
+    let mut name_inputs: Vec<Vec<u8>> = vec![b"a\0".to_vec(), b"0\0".to_vec(), b"007\0008\0".to_vec(), b"x1\0x1\0x1\0".to_vec(), b"a\0b\0a\0".to_vec(),
+        b"r9\0r10\0r265\0r266\0r300000\0".to_vec(), b"q:01\0q:02\0q:1\0q:001\0".to_vec(), b"4294967295\04294967296\000\0".to_vec(), b"\0\0x\0".to_vec()];
+    // names with 126 tokens and more: the 126th token is the unsplit remainder; remainders that
+    // are a string, a number, and the known class '+' digits (stored as a number, the sign is lost)
+    for tail in [&b"zz.yy"[..], b"12", b"007", b".+5", b"+5", b"+05", b"+x", b"+", b"+4294967296"] {
+        let mut n: Vec<u8> = b"a.".repeat(62);
+        n.push(b'a');
+        n.extend(tail);
+        n.push(0);
+        let mut two = n.clone();
+        two.extend(&n);
+        name_inputs.push(n);
+        name_inputs.push(two);
+    }
+    for _ in 0..(30 * scale) {
+        name_inputs.push(gen_names(rng));
+    }
+    for (ii, src) in name_inputs.iter().enumerate() {
+        w.push("nme", vec![hex(src)]);
+        let Outcome::Done(Ok(enc)) = guarded(AssertUnwindSafe(|| v::name_tokenizer_encode(src))) else { continue };
+        let mut want = src.clone();
+        if !want.is_empty() && *want.last().unwrap() != 0 {
+            want.push(0);
+        }
+        w.push("nmd", vec![hex(&enc), if names_plus_class(src) { "-".into() } else { hex(&want) }]);
+        if enc.len() > 10 {
+            let cut = rng.range(1, enc.len() as u64 - 1) as usize;
+            w.push("nmd", vec![hex(&enc[..cut]), "-".into()]);
+            if ii % 3 == 0 {
+                let mut more = enc.clone();
+                more.extend(rng.bytes(2));
+                w.push("nmd", vec![hex(&more), "-".into()]);
+                let mut ar = enc.clone();
+                ar[8] = 1;
+                w.push("nmd", vec![hex(&ar), "-".into()]);
+            }
+        }
+    }
 
     // ---- general purpose codecs
     for _ in 0..(6 * scale) {
@@ -1532,6 +1634,8 @@ fn run(c: &Case) -> Obs {
         }
         "fqd" => fqd_case(c),
         "names" => names_case(&c.b(0)),
+        "nme" => nme_case(&c.b(0)),
+        "nmd" => nmd_case(c),
         "gz" | "bz2" | "xz" => ext_case(&c.kind, c.u(0) as u32, &c.b(1)),
         "big" => {
             let mut rng = Rng(c.u(4));
